@@ -628,7 +628,7 @@ vbi_page_table_add_subpages	(vbi_page_table *	pt,
 	if (unlikely (!valid_subpage_range (pgno, first_subno, last_subno)))
 		return FALSE;
 
-	if (vbi_page_table_contains_page (pt, pgno))
+	if (contains_all_subpages (pt, pgno))
 		return TRUE;
 
 	if (first_subno > last_subno)
